@@ -119,7 +119,18 @@ func main() {
 		os.Exit(2)
 	}
 	res := runRules(p, ids)
+	// zero-expected rules must fire on their positive fixture (second load with in-memory files)
+	fx := checkFixtures(*repo, *goos, ids)
+	theProg = p
+	res.Obs = append(res.Obs, fx...)
 	extra := map[string]any{}
+	if len(fx) > 0 {
+		var names []string
+		for _, o := range fx {
+			names = append(names, fmt.Sprintf("%s=%v", o.Rule, o.OK))
+		}
+		extra["positive_fixtures"] = names
+	}
 	if *tier == "thorough" {
 		// second build: the !linux files (pkg/clock/host_generic.go)
 		p2, err := Load(*repo, "darwin", false)
